@@ -106,8 +106,8 @@ def rwWindow (s : S) (reads : List Call) (w : Call) : RWOut :=
 
 `Use` makes `done := make(chan error, 1)` and every answer is a send on it.  The model keeps no channel objects: the values
 sent on the channel of request `id` are the entries `(id, _)` of the history field `answered` — the worst case, a caller
-that never receives.  `answerChanCap` is compared with `cap()` of the channel the code returns (lines `chancap` of area
-`burst`); `C16.every_send_finds_room` shows that each send finds the channel empty. -/
+that never receives.  `answerChanCap` is a lower bound of `cap()` of the channel the code returns (lines `chancap` of area `burst`: the
+code's channel must have room for at least the one answer; a larger buffer is the implementation's business); `C16.every_send_finds_room` shows that each send finds the channel empty. -/
 
 /-- the capacity of the channel returned by `Use` (limiter.go:169) -/
 def answerChanCap : Nat := 1
